@@ -22,9 +22,9 @@ import (
 // (Expression).MarshalYAML whose arms return a conversion to a basic type or the result of
 // String(); the type switch over the decoded interface{} in (*Expression).UnmarshalYAML. One
 // obligation per fast-tracked type T (written as native kind K):
-//   * the reader has an arm for K;
-//   * if that arm stores a conversion T'(v): T' == T;
-//   * if that arm stores the result of a module function F(v): either F constructs a single type
+//   - the reader has an arm for K;
+//   - if that arm stores a conversion T'(v): T' == T;
+//   - if that arm stores the result of a module function F(v): either F constructs a single type
 //     (== T), or the writer's return is guarded by a test that calls F (the round-trip guard:
 //     `if back, ok := F(string(e))…; ok && back == e { return string(e), nil }`).
 func init() {
